@@ -46,6 +46,25 @@ void add(fault_stats_t& a, const fault_stats_t& b)
     a.child_crashes += b.child_crashes;
 }
 
+// once a sub-check has produced a violation the remaining sub-checks of this process are skipped: a reader defect that
+// lets a corrupted header through makes the nested readers loop over garbage lengths (up to 4 Gi characters per string),
+// and a process that runs into the driver's time limit loses the violation it has already found
+std::string g_failed_sub;
+
+bool skipped(const char* sub)
+{
+    return !g_failed_sub.empty() && g_failed_sub != sub;
+}
+
+verdict_t finish(const char* sub, verdict_t v)
+{
+    if (v.kind == kind_t::violation)
+    {
+        g_failed_sub = sub;
+    }
+    return v;
+}
+
 verdict_t to_verdict(const finding_t& f)
 {
     if (f.kind == 2 && std::getenv("C15_PRINT_KNOWN") != nullptr)
@@ -298,7 +317,7 @@ verdict_t check_tensor_ranked(const tcase_t& c, ctx_t& ctx)
     }
 }
 
-verdict_t check_tcase(const tcase_t& c, ctx_t& ctx)
+verdict_t check_tcase_impl(const tcase_t& c, ctx_t& ctx)
 {
     if (c.type < 0 || c.type > 9 || c.dims.empty() || c.dims.size() > 5)
     {
@@ -397,7 +416,7 @@ rc::Gen<vcase_t> gen_vcase()
     const auto reals = rc::gen::tuple(rc::gen::oneOf(gen::sym(10.0), rc::gen::element(0.0, -0.0, 1e-300, -1e300, 1e15, 4.9406564584124654e-324)),
                                       rc::gen::oneOf(gen::logu(1e-9, 1e9), rc::gen::element(1.0, 1e300, 4.9406564584124654e-324)), gen::real(0.0, 1.0), gen::real(0.0, 1.0));
     const auto misc  = rc::gen::tuple(gen::range<int>(0, 7), gen::range<int>(0, 5), gen::range<int>(0, 11), gen::range<int>(0, 4), gen::range<int>(0, 7),
-                                      gen::range<int>(0, 11), gen::range<int>(0, 2), gen::range<int>(0, 2));
+                                      rc::gen::element(0, 1, 2, 3, 4, 5, 6, 7, 8, 9, 10, 10, 10, 11, 11, 11), gen::range<int>(0, 2), gen::range<int>(0, 2));
     const auto strs  = rc::gen::tuple(gen_string(12), gen_string(20),
                                       rc::gen::mapcat(gen::range<int>(0, 5), [](int n) { return rc::gen::container<std::vector<std::string>>(static_cast<size_t>(n), gen_string(6)); }));
     const auto dims  = rc::gen::tuple(gen::range<int>(1, 5), gen::range<int>(1, 5), gen::range<int>(1, 8), gen::range<uint64_t>(1, uint64_t(1) << 40));
@@ -438,7 +457,7 @@ nano::parameter_t make_enum_parameter(const std::string& name, int type, int ind
     }
 }
 
-verdict_t check_vcase(const vcase_t& c, ctx_t& ctx)
+verdict_t check_vcase_impl(const vcase_t& c, ctx_t& ctx)
 {
     using nano::parameter_t;
     try
@@ -737,7 +756,7 @@ finding_t examine_factory_object(const char* family, const std::unique_ptr<tbase
     return known;
 }
 
-verdict_t check_ccase(const ccase_t& c, ctx_t& ctx)
+verdict_t check_ccase_impl(const ccase_t& c, ctx_t& ctx)
 {
     try
     {
@@ -941,9 +960,9 @@ rc::Gen<mcase_t> gen_mcase()
             // the folds makes the table weak learners index an empty score table (crash inside fitting, C10's subject)
             o.allow_missing = kind < 8;
             // steer towards inputs the chosen weak learner can use (the others still occur)
-            if (kind <= 2)
+            if (kind <= 2 || kind == 7)
             {
-                o.allow_sclass = o.allow_mclass = o.allow_struct = false;
+                o.allow_sclass = o.allow_mclass = o.allow_struct = false; // (the decision tree splits with stumps only)
             }
             else if (kind >= 3 && kind <= 6)
             {
@@ -1047,7 +1066,7 @@ nano::ml::params_t fit_params(const mcase_t& c)
     return nano::ml::params_t{}.solver(*solver).splitter(*splitter).tuner(*tuner).logger(nano::make_null_logger());
 }
 
-verdict_t check_mcase(const mcase_t& c, ctx_t& ctx)
+verdict_t check_mcase_impl(const mcase_t& c, ctx_t& ctx)
 {
     const auto& d = c.data;
     if (!d.valid() || d.target < 0 || d.samples < 4 || c.kind < 0 || c.kind > 12)
@@ -1221,6 +1240,42 @@ verdict_t check_mcase(const mcase_t& c, ctx_t& ctx)
     }
 }
 
+verdict_t check_tcase(const tcase_t& c, ctx_t& ctx)
+{
+    if (skipped("tensor"))
+    {
+        return verdict_t::discard("skipped-after-a-violation-in-another-sub-check");
+    }
+    return finish("tensor", check_tcase_impl(c, ctx));
+}
+
+verdict_t check_vcase(const vcase_t& c, ctx_t& ctx)
+{
+    if (skipped("value"))
+    {
+        return verdict_t::discard("skipped-after-a-violation-in-another-sub-check");
+    }
+    return finish("value", check_vcase_impl(c, ctx));
+}
+
+verdict_t check_ccase(const ccase_t& c, ctx_t& ctx)
+{
+    if (skipped("config"))
+    {
+        return verdict_t::discard("skipped-after-a-violation-in-another-sub-check");
+    }
+    return finish("config", check_ccase_impl(c, ctx));
+}
+
+verdict_t check_mcase(const mcase_t& c, ctx_t& ctx)
+{
+    if (skipped("model"))
+    {
+        return verdict_t::discard("skipped-after-a-violation-in-another-sub-check");
+    }
+    return finish("model", check_mcase_impl(c, ctx));
+}
+
 void print_totals()
 {
     if (std::getenv("C15_TOTALS") == nullptr)
@@ -1243,6 +1298,14 @@ int main(int argc, char** argv)
     // the fits create their own thread pools (ml::tune): two workers are plenty for 8..24 samples
     ::setenv("NANO_VERIF_MAX_THREADS", "2", 0);
     std::atexit(print_totals);
+    if (default_heavy_alternatives() < 0)
+    {
+        // plain flavour: altered extents request up to 2^31 x 6^4 elements; with a bounded address space such a request
+        // fails at once with std::bad_alloc (a reported failure) instead of depending on the overcommit policy of the
+        // machine, and a misaligned parse cannot zero-fill gigabytes (the sanitizer flavours bound allocations themselves)
+        const struct rlimit limit = {rlim_t(6) << 30, rlim_t(6) << 30};
+        ::setrlimit(RLIMIT_AS, &limit);
+    }
 
     suite_t suite("C15");
     suite.add<tcase_t>("tensor", gen_tcase, check_tcase, 0.50);
